@@ -22,6 +22,7 @@ type State struct {
 	old    *State
 	depth  int      // inline depth
 	taint  []string // callees without contract whose effects were havoc'd on this path
+	locks  map[string]int // mutexes locked by this unit and not yet unlocked on this path (key: receiver text)
 }
 
 func newState() *State {
@@ -46,6 +47,12 @@ func (s *State) clone() *State {
 	n.pc = append([]string(nil), s.pc...)
 	n.defers = append([]deferred(nil), s.defers...)
 	n.taint = append([]string(nil), s.taint...)
+	if len(s.locks) > 0 {
+		n.locks = make(map[string]int, len(s.locks))
+		for k, v := range s.locks {
+			n.locks[k] = v
+		}
+	}
 	return n
 }
 
